@@ -4891,6 +4891,10 @@ class ParameterizedMetaclass(type):
                 inherited_parameter = parameter
                 parameter = copy.copy(parameter)
                 parameter.owner = mcs
+                if hasattr(inherited_parameter, '_mode'):
+                    # (an Event that update() or trigger() is assigning: the
+                    # copy carries on in the mode the original was put into)
+                    parameter._mode = inherited_parameter._mode
                 # (as for a per-instance copy: mutable attribute values such
                 # as a Selector's objects are not shared with the original)
                 for slot in type(parameter)._all_slots_:
